@@ -52,6 +52,28 @@ fn walk(node: Node, kinds: &[&str], out: &mut Vec<(usize, usize, String)>) {
     }
 }
 
+/// the syntax tree restricted to the nodes of interest and their ancestors, as nested `[start, end, kind, [children]]`
+/// (the shape `CommentsIterator`'s cursor moves over; subtrees without a node of interest cannot yield a comment)
+fn pruned(node: Node, kinds: &[&str]) -> Option<serde_json::Value> {
+    let mut cursor = node.walk();
+    let children: Vec<serde_json::Value> = node.children(&mut cursor).filter_map(|c| pruned(c, kinds)).collect();
+    if kinds.contains(&node.kind()) || !children.is_empty() {
+        Some(serde_json::json!([node.start_byte(), node.end_byte(), node.kind(), children]))
+    } else {
+        None
+    }
+}
+
+pub fn tree(ext: &str, grammars: &HashMap<&'static str, Grammar>, source: &str) -> Option<serde_json::Value> {
+    let g = grammars.get(ext)?;
+    let mut parser = Parser::new();
+    parser.set_language(&g.language).expect("language");
+    let tree = parser.parse(source, None).expect("parse");
+    let root = tree.root_node();
+    // the root is always looked at first (`start_visited`)
+    Some(pruned(root, g.kinds).unwrap_or_else(|| serde_json::json!([root.start_byte(), root.end_byte(), root.kind(), []])))
+}
+
 /// (start byte, end byte, kind) of every node of interest, in document (DFS pre-order) order.
 pub fn nodes(ext: &str, grammars: &HashMap<&'static str, Grammar>, source: &str) -> Vec<(usize, usize, String)> {
     let Some(g) = grammars.get(ext) else { return vec![] };
